@@ -59,6 +59,7 @@ class World:
         self.t2 = None if prune else self.H(self.db)
         self.cm = None
         self.batch = None
+        self.opts = frozenset()
         self.n = 0                    # position in the behaviour (selects API spelling)
         self.pasts = []               # (root_hash, {key: value}) recorded along the way
 
@@ -157,6 +158,8 @@ def step(w, ev):
         elif a == "supply":
             r = w.rz.node(ev["n"])
             dict.__setitem__(w.db, r["hash"], r["enc"])
+        elif a == "reject":
+            return do_reject(w, ev)
         elif a in ("get", "bget"):
             trie = w.batch if a == "bget" else w.t
             key = key_of(ev["k"])
@@ -173,11 +176,81 @@ def step(w, ev):
     return {"kind": "ok"}
 
 
+REJECT_KEYS = [b"", b"\x00", b"\x00\x00", b"\x01\x00", b"\x00\x00\x01", b"\x10", b"\x00\x01\x00\x00"]
+
+
+def do_reject(w, ev):
+    """perform the ill-formed call of a Rejected event; returns the outcome record"""
+    from . import badargs as ba
+
+    t = w.batch if ev["on"] == "batch" and w.batch is not None else w.t
+    H = w.H
+    n = w.n
+    e, arg, kind = ev["entry"], ev["arg"], ev["kind"]
+    bad = ba.pick(ba.NOT_BYTES, n)
+    key = ba.pick(REJECT_KEYS, n)
+    try:
+        if e == "get":
+            t.get(bad)
+        elif e == "exists":
+            t.exists(bad)
+        elif e == "getitem":
+            t[bad]
+        elif e == "contains":
+            bad in t
+        elif e == "delete":
+            t.delete(bad)
+        elif e == "delitem":
+            del t[bad]
+        elif e == "get_proof":
+            t.get_proof(bad)
+        elif e in ("set", "setitem"):
+            k, v = (bad, b"v" * (1 + n % 40)) if arg == "key" else (key, bad)
+            if e == "set":
+                t.set(k, v)
+            else:
+                t[k] = v
+        elif e == "get_from_proof":
+            if arg == "key":
+                H.get_from_proof(w.t.root_hash, bad, ())
+            else:
+                H.get_from_proof(bad, key, ())
+        elif e == "constructor":
+            if arg == "root":
+                H(w.db, bad)
+            else:
+                H(w.db, prune=False, ref_count={})
+        elif e == "at_root":
+            with w.t.at_root(bad if kind == "notbytes" else w.t.root_hash):
+                pass
+        elif e in ("traverse", "traverse_from"):
+            p = ba.pick(ba.NOT_SEQUENCE, n) if kind == "notsequence" else ba.pick(ba.BAD_NIBBLES, n)
+            if e == "traverse":
+                t.traverse(p)
+            else:
+                t.traverse_from(t.root_node, p)
+        else:
+            return {"kind": "exc", "type": "harness", "msg": f"unknown rejected entry {e}"}
+    except Exception as exc:  # noqa
+        ok = ba.exc_matches(exc, ev["exc"], w.mod.exceptions)
+        return {"kind": "rejected" if ok else "wrongexc", "type": type(exc).__name__, "msg": str(exc)[:120]}
+    return {"kind": "accepted"}
+
+
 def compare_outcome(w, ev, real, pre, post, out):
     """acceptance of the outcome of the last call of a behaviour"""
     exp = ev["out"]
     a = ev["a"]
     rz = w.rz
+    if a == "reject":
+        what = {"entry": ev["entry"], "arg": ev["arg"], "kind": ev["kind"], "on": ev["on"], "real": real}
+        if real["kind"] == "accepted":
+            out.append(("C18", "ill-formed-call-not-refused", what))
+        elif real["kind"] != "rejected":
+            out.append(("C18", "ill-formed-call-refused-with-the-wrong-exception", dict(what, expected=ev["exc"])))
+        if pre["snap"] != post:
+            out.append(("C18", "refused-call-changed-state", what))
+        return
     if exp["kind"] == "ok":
         if real["kind"] != "ok":
             owner = "C07" if real["kind"].startswith("missing") else \
@@ -277,6 +350,8 @@ def check_state(w, st, out, last):
                 out.append(("C02", "second-root-hash-not-canonical", {"real": w.t2.root_hash}))
     if st.get("light"):
         return
+    if "classify" in w.opts:
+        classify_nodes(w, st, out)
     # database contents
     exp_db = rz.db(st["db"])
     real_db = dict(w.db)
@@ -608,6 +683,32 @@ def check_proofs(w, st, out):
         fail("unrelated-root-resolved-wrongly", {"got": got})
 
 
+def classify_nodes(w, st, out):
+    """C16 (iii): every node of the database, read back, classifies as the kind it was written
+    as and yields the key path it was written with"""
+    import importlib
+
+    nd = importlib.import_module("trie.utils.nodes")
+    kinds = {"L": 1, "E": 2, "B": 3}
+    for j in st["db"]:
+        r = w.rz.node(j)
+        raw = dict.get(w.db, r["hash"])
+        if raw is None:
+            continue
+        node = nd.decode_node(raw)
+        count("classify")
+        try:
+            t = nd.get_node_type(node)
+            if t != kinds[j[0]]:
+                out.append(("C16", "hexary-node-misclassified", {"node": j[0], "got": t}))
+            if j[0] in "LE" and tuple(nd.extract_key(node)) != tuple(j[1]):
+                out.append(("C16", "hexary-node-key-path-wrong", {"want": j[1], "got": list(nd.extract_key(node))}))
+        except Exception as exc:  # noqa
+            out.append(("C16", "hexary-node-classification-raised", {"exc": type(exc).__name__}))
+    if nd.get_node_type(b"") != 0:
+        out.append(("C16", "blank-node-misclassified", {}))
+
+
 def pre_info(w):
     return {"root": w.t.root_hash,
             "root2": None if w.t2 is None else w.t2.root_hash,
@@ -630,6 +731,7 @@ def replay(obj, mod, rz, opts=frozenset()):
     """Run one emitted behaviour on the real code.  Returns the list of findings."""
     h, st = obj["h"], obj["st"]
     w = World(mod, st["prune"], rz)
+    w.opts = opts
     out = []
     begin = None
     track_past = "past" in opts and not st["prune"]
@@ -641,6 +743,11 @@ def replay(obj, mod, rz, opts=frozenset()):
         if ev["a"] == "begin":
             begin = snapshot(w)
         db_before = dict(w.db) if is_last else None
+        if ev["a"] == "reject" and not is_last:
+            pre_r = pre_info(w)
+            real = step(w, ev)
+            compare_outcome(w, ev, real, pre_r, snapshot(w), out)
+            continue
         real = step(w, ev)
         if track_past and st.get("nlost", 0) == 0 and ev["a"] not in ("lose", "supply"):
             for tr in (w.t, w.t2):
@@ -767,6 +874,8 @@ def stats(obj, ctx):
     for t in kinds:
         tags.append("has-" + {"L": "leaf", "E": "extension", "B": "branch"}[t])
     h = obj.get("h") or []
+    if any(e.get("a") == "reject" for e in h[:-1]):
+        tags.append("rejected-call-in-mid-history")
     if h and h[-1].get("out", {}).get("kind") == "missing":
         tags.append("missing-node-outcome")
     if st.get("nlost"):
@@ -779,4 +888,7 @@ def make_context(mod):
 
 
 def replay_line(obj, ctx, opts):
-    return replay(obj, ctx[0], ctx[1], opts)
+    from .common import c18_relabel
+
+    fs = replay(obj, ctx[0], ctx[1], opts)
+    return c18_relabel(obj, fs, lambda o: replay(o, ctx[0], ctx[1], opts))
